@@ -134,9 +134,10 @@ ALL_KINDS = SVGTREE_KINDS + CONV_KINDS + ['attr']
 
 
 class Junk:
-    def __init__(self, rng, text=''):
+    def __init__(self, rng, text='', langs=('en',)):
         self.rng = rng
         self.n = 0
+        self.langs = list(langs)        # the `languages` option the document is parsed with
         # names the document itself uses: class selectors and referenced ids (a foreign-namespace `class` / `id` attribute
         # that were honoured would then change something)
         self.classes = sorted(set(re.findall(r"\.([A-Za-z_][\w-]*)\s*[{,:\[>+~ ]", ' '.join(re.findall(r"<(?:\w+:)?style\b[^>]*>(.*?)</", text, re.S))))) or ['a']
@@ -214,9 +215,26 @@ class Junk:
             ])
         if kind == 'cond':
             i = self.nid()
-            c = r.choice(['systemLanguage="xx"', 'systemLanguage="xx-YY, zz"', 'requiredExtensions="http://example.org/vf"',
-                          'requiredExtensions=""', 'requiredFeatures="http://www.w3.org/TR/SVG11/feature#VfNope"',
-                          'requiredFeatures="http://www.w3.org/TR/SVG11/feature#Shape nope"'])
+            u = r.choice(self.langs)
+            # near misses of the configured languages: they begin with a user language but neither equal it nor continue with `-`;
+            # a user language that is LONGER than the entry; the user language as a later subtag; lists of such entries
+            near = [u + 'm', u + 'g', u + '_US', u + '2', u + 'x-US', 'x' + u, 'x-' + u, u[:-1] or 'q', u + u, u + '.', u + ' x']
+            if '-' in u:
+                near += [u.split('-')[0], u + 'A', u.split('-')[0] + '-' + u.split('-')[1][:-1]]
+            near = [x for x in near if x not in self.langs and x.split('-')[0] not in self.langs]
+            c = r.choice(['systemLanguage="xx"', 'systemLanguage="xx-YY, zz"', 'systemLanguage=""',
+                          'systemLanguage="%s"' % r.choice(near), 'systemLanguage="%s"' % r.choice(near),
+                          'systemLanguage="%s, %s"' % (r.choice(near), r.choice(near)), 'systemLanguage=" %s ,zz,%s"' % (r.choice(near), r.choice(near)),
+                          'requiredExtensions="http://example.org/vf"', 'requiredExtensions=""', 'requiredExtensions=" "',
+                          'requiredExtensions="http://www.w3.org/1999/xhtml"',
+                          'requiredFeatures="http://www.w3.org/TR/SVG11/feature#VfNope"',
+                          'requiredFeatures="http://www.w3.org/TR/SVG11/feature#Shape nope"',
+                          # near misses of supported feature strings
+                          'requiredFeatures="http://www.w3.org/TR/SVG11/feature#Shap"', 'requiredFeatures="http://www.w3.org/TR/SVG11/feature#Shape2"',
+                          'requiredFeatures="http://www.w3.org/TR/SVG11/feature#shape"', 'requiredFeatures="http://www.w3.org/TR/SVG12/feature#Shape"',
+                          'requiredFeatures="feature#Shape"', 'requiredFeatures="http://www.w3.org/TR/SVG11/feature#Font"',
+                          'requiredFeatures="http://www.w3.org/TR/SVG11/feature#Shape http://www.w3.org/TR/SVG11/feature#BasicFont"',
+                          'requiredFeatures="http://www.w3.org/TR/SVG11/feature#Shape,http://www.w3.org/TR/SVG11/feature#Text"'])
             return r.choice(['<g id="%s" %s>%s</g>' % (i, c, self.shape()),
                              '<rect id="%s" %s width="70" height="70" fill="red"/>' % (i, c),
                              '<circle id="%s" %s r="50" fill="blue" opacity="0.5"/>' % (i, c),
@@ -283,12 +301,12 @@ class Junk:
         return ' xmlns:vq="urn:x-q" ' + a
 
 
-def insert_junk(text, rng, kinds, lo=1, hi=8, elements_ok=True):
+def insert_junk(text, rng, kinds, lo=1, hi=8, elements_ok=True, langs=('en',)):
     """-> (new text, list of (offset, kind, junk text)).  1..8 items of each kind at random structural positions."""
     points, tags = scan(text)
     if not points:
         return None, []
-    jk = Junk(rng, text)
+    jk = Junk(rng, text, langs)
     items = []
     for kind in kinds:
         if kind == 'attr':
@@ -422,9 +440,10 @@ class Skel:
                  opacity=r.choice([None, None, None, '0.5', '1']), blend=r.below(10) == 0, isolate=r.below(10) == 0,
                  clip=r.choice([None] * 6 + ['cpOK', 'lgX', 'missing']), mask=r.choice([None] * 6 + ['mOK', 'lgX']),
                  filter=r.choice([None] * 6 + ['fOK', 'none', 'missing', 'fOK']),
-                 cond=r.choice([None] * 8 + ['lang_ok', 'lang_bad', 'ext', 'feat_ok', 'feat_bad']), valid=r.below(5) != 0, children=[])
+                 cond=r.choice([None] * 8 + ['lang', 'lang', 'lang', 'ext', 'feat_ok', 'feat_bad']), valid=r.below(5) != 0, children=[],
+                 langval=r.choice(['en', 'xx', 'enm', 'eng, en_US', 'xx, en-GB', 'e', 'en-', 'x-en', ' en ', 'de,en', 'EN', 'en2, enx-US', '']))
         if in_switch and r.below(2):
-            a['cond'] = r.choice(['lang_ok', 'lang_bad', 'ext', 'feat_bad'])
+            a['cond'] = r.choice(['lang', 'lang', 'ext', 'feat_bad'])
         if tag in ('g', 'defs', 'symbol', 'marker', 'pattern'):
             a['children'] = [self.elem(depth + 1) for _ in range(r.below(4))]
         elif tag == 'switch':
@@ -460,10 +479,8 @@ def skel_xml(a):
     if a['filter']:
         at.append('filter="%s"' % ('none' if a['filter'] == 'none' else 'url(#%s)' % a['filter']))
     c = a['cond']
-    if c == 'lang_ok':
-        at.append('systemLanguage="en"')
-    elif c == 'lang_bad':
-        at.append('systemLanguage="xx"')
+    if c == 'lang':
+        at.append('systemLanguage="%s"' % a['langval'])
     elif c == 'ext':
         at.append('requiredExtensions="http://example.org/x"')
     elif c == 'feat_ok':
@@ -517,7 +534,8 @@ def skel_coq(a):
              "a_width := %s; a_height := %s; a_r := %s; a_rx := %s; a_ry := %s; a_npoints := %s%%N |}"
              % (cstr(a['id']), b(a['display_none']), '(usvg_ts_valid (from_row %s))' % ' '.join(vlib.qstr(float(np_f32(x))) for x in TS_ROWS[a['ts']]),
                 b(TS_ROWS[a['ts']] == (1, 0, 0, 1, 0, 0)),
-                b(c == 'ext'), b(c != 'feat_bad'), b(c != 'lang_bad'),
+                b(c == 'ext'), b(c != 'feat_bad'),
+                ('(sys_lang_ok ["en"] [%s])' % '; '.join(cstr(x.strip()) for x in a['langval'].split(','))) if c == 'lang' else 'true',
                 '(1#2)' if a['opacity'] == '0.5' else '1', b(not a['blend']), b(a['isolate']), clip, mask, flt,
                 geom['w'], geom['h'], geom['r'], geom['rx'], geom['ry'], geom['np']))
     kids = 'NNil'
@@ -792,14 +810,17 @@ def run(ctx):
     for f, t in list(texts.items()) + generated:
         elems_ok = not positional_css(t)
         for rep in range(1 if quick else 2):
-            bt, items = insert_junk(t, rng, ALL_KINDS, elements_ok=elems_ok)
+            # the `languages` option the pair is parsed with (default: en)
+            langs = rng.choice([('en',), ('en',), ('de',), ('en-US', 'ru'), ('fr', 'en'), ('zh-Hant',)])
+            bt, items = insert_junk(t, rng, ALL_KINDS, elements_ok=elems_ok, langs=langs)
             if bt is None or not items:
                 continue
             for _, k, _ in items:
                 kinds_hist[k] = kinds_hist.get(k, 0) + 1
             isfile = f.startswith('/')
-            cases.append(dict(name=f, opts=('res=%s' % os.path.dirname(f)) if isfile else '-', a=('@' + f) if isfile else hexdoc(t),
-                              b_text=bt, items=items, base_text=t))
+            lo = '' if langs == ('en',) else 'lang=%s' % ','.join(langs)
+            opts = ';'.join(x for x in ((('res=%s' % os.path.dirname(f)) if isfile else ''), lo) if x) or '-'
+            cases.append(dict(name=f, opts=opts, a=('@' + f) if isfile else hexdoc(t), b_text=bt, items=items, base_text=t))
     # regression inputs: the witness with / without its non-rendered element
     wpath = os.path.join(vlib.VERIF, 'corpus', 'witness', 'C11-foreign-style.svg')
     if os.path.exists(wpath):
